@@ -84,10 +84,10 @@ CLAIMED["C09"] = dict(engine="E1", technique="the real ChannelCodeModel assemble
     text="All messages of one block, for each stated (code, decoder, modem, channel) combination: ideal channel, at most t flipped code bits per block, per-symbol displacement below d_min/2 per axis (BPSK, QPSK), and soft pipelines (Wagner, polar SC, min-sum LDPC) with the demodulator's LLR output at noise variances on a grid.",
     note="One block per call; hard pipelines on 6 modem options x {syndrome, ML} + BM/syndrome on BPSK; the combination list is a bound. Interface mismatches between individually correct stages (label tables, LLR polarity) are what this check is for (self-test: swapped demodulator labels).",
     ref="DESIGN.md §4 C09")
-CLAIMED["C19"] = dict(engine="E3", technique="torch's own symbolic-shape tracer (FakeTensorMode + ShapeEnv with batch/height/width dynamic) runs the real encoder/decoder modules; the resulting integer size expressions and guards are translated to z3 LIA, which decides the shape contract over all admissible sizes; uncovered guard regions are re-traced until the admissible set is covered",
-    text="SHAPE CLAUSE ONLY: for the bundled Bourtsoulatze2019 and Tung2022 (Q, Q2) encoder/decoder pairs with reduced widths, every batch size 1..8 and every height/width in [16,512] that is a multiple of the total stride: decoder(encoder(x)) has the input's shape and the latent is (B, channels, H/stride, W/stride); the filter-count helper on ground instances.",
-    note="The differentiability / gradient-flow clause and the decoders' output value range are outside the claim (autograd is C++, symbolic tensors carry no autograd graph; see DESIGN §6 and not_applicable notes). torch's fake/meta kernels are trusted for shape inference.",
-    ref="DESIGN.md §4 C19, §6")
+CLAIMED["C19"] = dict(engine="E3+E1", technique="shape clause: torch's own symbolic-shape tracer (FakeTensorMode + ShapeEnv with batch/height/width dynamic) runs the real encoder/decoder modules; the resulting integer size expressions and guards are translated to z3 LIA, which decides the shape contract over all admissible sizes (dynamic sizes are traced under size >= 2, so B = 1 is traced separately; uncovered guard regions are re-traced). Gradient clause: the real channel / constraint runs on symbolic float64 tensors that require grad; torch's autograd engine executes its backward formulas on the symbolic tensors, and z3 (NRA on cone-of-influence slices) decides per Jacobian entry whether autograd's value can differ from the symbolic derivative of the stage's own output, and whether a backward operation can be undefined",
+    text="(a) for the bundled Bourtsoulatze2019 and Tung2022 (Q, Q2) encoder/decoder pairs with reduced widths, every batch size 1..8 and every height/width in [16,512] that is a multiple of the total stride: decoder(encoder(x)) has the input's shape and the latent is (B, channels, H/stride, W/stride); the filter-count helper on ground instances. (b) for AWGN / Laplacian / phase-noise / flat-fading / nonlinear channels and total / average / per-antenna / peak / PAPR (no-clipping path) constraints on real and complex tensors of 2..8 samples in 1-D, batch-of-1, batch-of-2 and 3-D layouts, with symbolic noise draws: autograd's Jacobian equals the derivative of the computed function and is finite for every input of the stated domain (|x| <= 20, item power >= 0.05, forward radicands/divisors >= 1e-3, 1% away from clipping levels); (c) DeepJSCCModel(linear encoder with symbolic 2x2 weights -> TotalPower -> AWGN -> linear decoder): autograd dL/dW equals the derivative of the loss for all weights and draws and is not identically zero for any parameter.",
+    note="Gradients through the convolutional encoders/decoders themselves and the decoders' output value range are outside the claim (scalar-symbolic execution of a conv net is out of reach). PAPR clipping rounds, Nonlinear+SNR-noise on complex input and three further pipelines are stretch items (reported, never counted as holds). torch's fake/meta kernels (shape inference) and torch's backward formulas (executed for real on symbolic scalars) are trusted as torch semantics. One genuine defect found and repaired (PAPRConstraint not differentiable, fix f892e47).",
+    ref="DESIGN.md §4 C19, §6, §9")
 NOT_YET = {}
 
 PENDING_REASON = "check not built yet in this round (planned: see DESIGN.md §8); not claimed until its check exists"
